@@ -885,3 +885,199 @@ func renderQueries(qs []jsonQuery) string {
 	}
 	return strings.Join(parts, " ")
 }
+
+// predicateSet tabulates a byte -> bool module function over 0..255.
+func predicateSet(c *core.Ctx, g *ssa.Function) (set [256]bool, err error) {
+	if g == nil || len(g.Params) != 1 || g.Blocks == nil {
+		return set, fmt.Errorf("not a one-argument predicate")
+	}
+	for b := 0; b < 256; b++ {
+		ev := newEval(c)
+		ev.Env = fde.Env{g.Params[0]: constant.MakeInt64(int64(b))}
+		exits, e := ev.Walk(g.Blocks[0], nil, nil, 0)
+		if e != nil || len(exits) != 1 || exits[0].Ret == nil {
+			return set, fmt.Errorf("predicate %s not evaluable for byte %#02x: %v", g.Name(), b, e)
+		}
+		v, ok := exits[0].ValAt(ev, exits[0].Ret.Results[0])
+		if !ok || v.Kind() != constant.Bool {
+			return set, fmt.Errorf("predicate %s does not fold for byte %#02x", g.Name(), b)
+		}
+		set[b] = constant.BoolVal(v)
+	}
+	return set, nil
+}
+
+func setDesc(set [256]bool) string {
+	var bs []string
+	for b := 0; b < 256; b++ {
+		if set[b] {
+			bs = append(bs, fmt.Sprintf("%q", byte(b)))
+		}
+	}
+	return strings.Join(bs, "")
+}
+
+// boolPredicatesCalledBy: one-byte bool predicates of the module called from f.
+func boolPredicatesCalledBy(f *ssa.Function) []*ssa.Function {
+	var out []*ssa.Function
+	seen := map[*ssa.Function]bool{}
+	for _, ci := range core.Calls(f) {
+		g := ci.Common().StaticCallee()
+		if g == nil || !core.InMod(g) || seen[g] || len(g.Params) != 1 || g.Signature.Results().Len() != 1 {
+			continue
+		}
+		pb, ok1 := g.Params[0].Type().Underlying().(*types.Basic)
+		rb, ok2 := g.Signature.Results().At(0).Type().Underlying().(*types.Basic)
+		if ok1 && ok2 && pb.Kind() == types.Uint8 && rb.Kind() == types.Bool {
+			seen[g] = true
+			out = append(out, g)
+		}
+	}
+	return out
+}
+
+// R09.5
+var ruleLexTables = &core.Rule{ID: "R09.5", Min: 6,
+	Doc: "lexical tables of the scalar scanners, tabulated over 0..255: white space is exactly SP HT LF CR; digits are 0-9; hex digits are 0-9a-fA-F; in the string scanner only '\"' ends the string and only '\\\\' starts an escape, the one-character escapes are exactly \" \\\\ / b f n r t, 'u' goes on to the hex digits, every other escape fails; a non-hex digit in \\\\uXXXX fails",
+	Run: func(c *core.Ctx, s *core.Sink) {
+		m := getJSON(c)
+		g := m.guardFn
+		if g == nil {
+			core.Bail("guard function of the scanner not found")
+		}
+		disp := tabulateDispatch(c, m, g)
+		strFn, numFn := disp['"'].callee, disp['0'].callee
+		// the space scanner: the family function the value scanner calls first
+		var spaceFn *ssa.Function
+		for _, ci := range core.Calls(g) {
+			if h := ci.Common().StaticCallee(); h != nil && m.fam[h] && intParamIndex(h) < 0 && h != strFn && h != numFn {
+				spaceFn = h
+				break
+			}
+		}
+		check := func(name string, f *ssa.Function, want func(b int) bool, what string) {
+			if f == nil {
+				s.Bad(name, c.Pos(g.Pos()), "scanner for "+what+" not found from the value dispatch")
+				return
+			}
+			ps := boolPredicatesCalledBy(f)
+			if len(ps) == 0 {
+				s.Und(name, c.Pos(f.Pos()), "no byte predicate called by "+f.Name()+" (inline tests are not tabulated by this rule)")
+				return
+			}
+			for _, p := range ps {
+				set, err := predicateSet(c, p)
+				if err != nil {
+					s.Und(name+" ("+p.Name()+")", c.Pos(p.Pos()), err.Error())
+					continue
+				}
+				bad := ""
+				for b := 0; b < 256 && bad == ""; b++ {
+					if set[b] != want(b) {
+						bad = fmt.Sprintf("%s treats byte %q as %s=%v; RFC 8259 says %v (accepted set: %s)", p.Name(), byte(b), what, set[b], want(b), setDesc(set))
+					}
+				}
+				s.Check(bad == "", name+" ("+p.Name()+")", c.Pos(p.Pos()), "256 byte values: "+setDesc(set), bad)
+			}
+		}
+		check("white space set", spaceFn, func(b int) bool { return b == ' ' || b == '\t' || b == '\n' || b == '\r' }, "white space")
+		check("digit set", numFn, func(b int) bool { return b >= '0' && b <= '9' }, "digit")
+		check("hex digit set", strFn, func(b int) bool {
+			return (b >= '0' && b <= '9') || (b >= 'a' && b <= 'f') || (b >= 'A' && b <= 'F')
+		}, "hex digit")
+		// string scanner byte tests
+		if strFn == nil {
+			return
+		}
+		f := strFn
+		hdrs := map[*ssa.BasicBlock]bool{}
+		for _, b := range f.Blocks {
+			for _, p := range b.Preds {
+				if b.Dominates(p) {
+					hdrs[b] = true
+				}
+			}
+		}
+		var descs []string
+		n := 0
+		for _, b := range f.Blocks {
+			for _, in := range b.Instrs {
+				u, ok := in.(*ssa.UnOp)
+				if !ok || u.Op != token.MUL {
+					continue
+				}
+				ia, ok := u.X.(*ssa.IndexAddr)
+				if !ok || ia.X != ssa.Value(f.Params[1]) {
+					continue
+				}
+				n++
+				tab := map[string][]int{}
+				var undec error
+				for v := 0; v < 256; v++ {
+					ev := newEval(c)
+					ev.Env = fde.Env{u: constant.MakeInt64(int64(v))}
+					exits, err := ev.Walk(b, nil, func(blk *ssa.BasicBlock) bool {
+						if hdrs[blk] {
+							return true
+						}
+						if blk != b {
+							for _, x := range blk.Instrs {
+								if u2, ok := x.(*ssa.UnOp); ok && u2 != u && u2.Op == token.MUL {
+									if ia2, ok := u2.X.(*ssa.IndexAddr); ok && ia2.X == ssa.Value(f.Params[1]) {
+										return true
+									}
+								}
+							}
+						}
+						return false
+					}, 2)
+					if err != nil {
+						undec = err
+						break
+					}
+					kind := ""
+					for _, x := range exits {
+						k := "other"
+						switch {
+						case x.Ret != nil && core.IsConstInt(x.Ret.Results[0], 0):
+							k = "fail"
+						case x.Ret != nil:
+							k = "close"
+						case x.Stop != nil && hdrs[x.Stop] && (x.Stop == b || x.Stop.Dominates(b)):
+							k = "loop" // back to a loop this test sits in
+						case x.Stop != nil:
+							k = "on" // next byte test, or entry of an inner loop
+						}
+						// an end-of-input test right after the byte may lead to a failure as well as on: keep the non-failure kind
+						if kind == "" || kind == "fail" {
+							kind = k
+						} else if k != "fail" && kind != k {
+							kind = "mixed"
+						}
+					}
+					tab[kind] = append(tab[kind], v)
+				}
+				key := fmt.Sprintf("%s: byte test #%d", f.Name(), n)
+				if undec != nil {
+					s.Und(key, c.Pos(u.Pos()), undec.Error())
+					continue
+				}
+				descs = append(descs, descTab(tab))
+				_ = key
+			}
+		}
+		want := []string{
+			`close:'"' loop:* on:'\\'`,
+			`fail:* loop:'"''/''\\''b''f''n''r''t' on:'u'`,
+			`fail:* loop:'0''1''2''3''4''5''6''7''8''9''A''B''C''D''E''F''a''b''c''d''e''f'`,
+		}
+		for i, w := range want {
+			got := "(missing)"
+			if i < len(descs) {
+				got = descs[i]
+			}
+			names := []string{"string body byte", "escape character", "\\u hex digit"}
+			s.Check(got == w, fmt.Sprintf("%s: %s table", f.Name(), names[i]), c.Pos(f.Pos()), got, fmt.Sprintf("byte table is {%s}, RFC 8259 string syntax requires {%s}", got, w))
+		}
+		s.Check(len(descs) == 3, f.Name()+": three byte tests (body, escape, hex)", c.Pos(f.Pos()), fmt.Sprint(len(descs)), fmt.Sprintf("%d byte tests in the string scanner", len(descs)))
+	}}
